@@ -34,7 +34,7 @@ tvars == <<regs, l, sym>>
 MutEvents == {"New", "Add", "AddMany", "FromInstructions", "Concat", "AddAssign", "Clone", "CloneWithoutBody",
               "Resolve", "Filter", "Supplied"}
 
-DecI(r) == Instr(r.id, r.k, r.key, r.text, Range(r.qs))
+DecI(r) == [id |-> r.id, k |-> r.k, key |-> r.key, text |-> r.text, qs |-> Range(r.qs), g |-> r.g]
 SymTable(list) == [id \in {list[n].id : n \in DOMAIN list} |->
                      DecI(list[CHOOSE n \in DOMAIN list : list[n].id = id])]
 SS(ids) == [n \in DOMAIN ids |-> sym[ids[n]]]
@@ -48,7 +48,7 @@ OpOf(e) ==
     [] e.ev = "AddAssign"        -> [ev |-> "AddAssign", dst |-> e.dst, b |-> e.b]
     [] e.ev = "Clone"            -> [ev |-> "Clone", dst |-> e.dst, a |-> e.a]
     [] e.ev = "CloneWithoutBody" -> [ev |-> "CloneWithoutBody", dst |-> e.dst, a |-> e.a]
-    [] e.ev = "Resolve"          -> [ev |-> "Resolve", dst |-> e.dst, body |-> SS(e.body)]
+    [] e.ev = "Resolve"          -> [ev |-> "Resolve", mode |-> e.mode, dst |-> e.dst, map |-> e.map]
     [] e.ev = "Filter"           -> [ev |-> "Filter", dst |-> e.dst, a |-> e.a, drop |-> e.drop]
     [] e.ev = "Supplied"         -> [ev |-> "Supplied", name |-> e.name, dst |-> e.dst, a |-> e.a,
                                      listing |-> SS(e.listing)]
@@ -76,6 +76,8 @@ TMut == /\ l <= Len(Rec) /\ Rec[l].ev \in MutEvents /\ l' = l + 1 /\ UNCHANGED s
                m  == IF kf THEN [m0 EXCEPT ![e.dst].excl = {"kf16"}] ELSE m0
            IN IF Strict
               THEN /\ PostMatches(m, e.dst, e.post)
+                   \* the recorded default resolutions are the documented ones (binding only)
+                   /\ ((e.ev = "Resolve" /\ e.mode = "default") => e.map = DefaultResolver(regs[e.dst]))
                    /\ (e.ev = "Supplied" => SuppliedFrameOk(e.name, regs[e.a], m[e.dst]))
                    /\ regs' = m
               ELSE regs' = [m EXCEPT ![e.dst] = Adopt(m[e.dst], e.post)]
